@@ -6,6 +6,12 @@ import (
 )
 
 func TestC01(t *testing.T) { runRapid(t, "C01") }
+func TestC02(t *testing.T) { runRapid(t, "C02") }
+func TestC05(t *testing.T) { runRapid(t, "C05") }
+func TestC06(t *testing.T) { runRapid(t, "C06") }
+func TestC07(t *testing.T) { runRapid(t, "C07") }
+func TestC09(t *testing.T) { runRapid(t, "C09") }
+func TestC10(t *testing.T) { runRapid(t, "C10") }
 
 func TestReplay(t *testing.T) {
 	p := os.Getenv("VERIF_REPLAY")
